@@ -69,6 +69,28 @@ func guardIndex(fn *ssa.Function) map[int][]string {
 			}
 		}
 	}
+	// literals that are calls of new boolean helpers (see inline.go)
+	calls := map[string]*ssa.Call{}
+	for _, e := range edges {
+		v := e.Cond
+		for {
+			u, ok := v.(*ssa.UnOp)
+			if !ok || u.Op != token.NOT {
+				break
+			}
+			v = u.X
+		}
+		if call, ok := v.(*ssa.Call); ok {
+			if g := call.Common().StaticCallee(); g != nil && inlineable(g) {
+				calls[e.Atom] = call
+			}
+		}
+	}
+	if len(calls) > 0 {
+		for k, ls := range out {
+			out[k] = expandPredicateLiterals(fn, ls, calls)
+		}
+	}
 	return out
 }
 
@@ -92,7 +114,9 @@ func reachableFromEntry(fn *ssa.Function, target *ssa.BasicBlock) bool {
 }
 
 // Sites enumerates the effects of fn (not of nested closures).
-func Sites(fn *ssa.Function) []Site {
+func Sites(fn *ssa.Function) []Site { return sitesDepth(fn, 0) }
+
+func sitesDepth(fn *ssa.Function, depth int) []Site {
 	if len(fn.Blocks) == 0 {
 		return nil
 	}
@@ -117,6 +141,10 @@ func Sites(fn *ssa.Function) []Site {
 				s.Target = CalleeName(x)
 				for _, a := range CallArgs(x) {
 					s.Args = append(s.Args, t.T(a))
+				}
+				if g := x.Common().StaticCallee(); g != nil && s.Kind == "call" && depth < 2 && inlineable(g) {
+					out = append(out, inlineSites(fn, x, s, g, depth)...)
+					continue
 				}
 			case *ssa.Store:
 				if ia, ok := x.Addr.(*ssa.IndexAddr); ok {
@@ -242,13 +270,27 @@ func (c *Ctx) CheckSitesPresent(rule string, fn *ssa.Function, specs []SiteSpec)
 
 func (c *Ctx) checkSites(rule string, fn *ssa.Function, specs []SiteSpec, closed bool) {
 	name := FuncName(fn)
+	// A return without results carries no behaviour of its own (what it skips is
+	// visible in the guards of the effects after it), and its count changes under
+	// harmless reshaping (early return <-> else branch, return <-> break): such
+	// sites and specs are not compared.
+	void := fn.Signature.Results().Len() == 0
+	if void {
+		var kept []SiteSpec
+		for _, sp := range specs {
+			if sp.Kind != "return" {
+				kept = append(kept, sp)
+			}
+		}
+		specs = kept
+	}
 	targets := map[string]bool{}
 	for _, sp := range specs {
 		targets[sp.Kind+" "+sp.Target] = true
 	}
 	counts := make([]int, len(specs))
 	for _, s := range Sites(fn) {
-		if !targets[s.Kind+" "+s.Target] {
+		if !targets[s.Kind+" "+s.Target] || (void && s.Kind == "return") {
 			continue
 		}
 		matched := -1
